@@ -106,7 +106,7 @@ theorem not_stroke_fill : ("fill".startsWith "stroke") = false := by decide +ker
 /-- C04 (bookkeeping, fill piece): opacity = opacity × fill-opacity, fill-opacity = 1 -/
 theorem fill_piece (shape : ShapeRec) (d : String)
     (h1 : (shape.get "opacity").isSome = true) (h2 : (shape.get "fill_opacity").isSome = true) :
-    (strokePieces shape d).1.get "opacity" = some (.f (shape.getF "opacity" * shape.getF "fill_opacity"))
+    (strokePieces shape d).1.get "opacity" = some (.f (clampOpacity (shape.getF "opacity") * clampOpacity (shape.getF "fill_opacity")))
     ∧ (strokePieces shape d).1.get "fill_opacity" = some (.f 1.0) := by
   unfold strokePieces
   simp only
@@ -119,7 +119,7 @@ theorem fill_piece (shape : ShapeRec) (d : String)
 theorem stroke_piece (shape : ShapeRec) (d : String)
     (h1 : (shape.get "opacity").isSome = true) (h2 : (shape.get "fill_opacity").isSome = true)
     (h3 : (shape.get "fill").isSome = true) :
-    (strokePieces shape d).2.get "opacity" = some (.f (shape.getF "opacity" * shape.getF "stroke_opacity"))
+    (strokePieces shape d).2.get "opacity" = some (.f (clampOpacity (shape.getF "opacity") * clampOpacity (shape.getF "stroke_opacity")))
     ∧ (strokePieces shape d).2.get "fill" = some (.s (shape.getS "stroke"))
     ∧ (strokePieces shape d).2.get "fill_opacity" = some (.f 1.0) := by
   unfold strokePieces
